@@ -160,14 +160,23 @@ def implicitDirEntry (k : Bytes) (mtime : Int) : Content :=
   { dst := k, type := T.implicitDir,
     info := some { owner := b!"root", group := b!"root", mode := 0o755, mtime := mtime } }
 
+/-- files.occupant: what already sits at a destination, as a non-directory or as a directory -/
+def occupant (m : CMap) (dst : Bytes) : Option Content :=
+  match m.lookup (normFile dst) with
+  | some c => some c
+  | none => m.lookup (normDir dst)
+
 /-- files.addParents over an explicit parent list -/
 def addParentsL (mtime : Int) : List Bytes → CMap → Except ErrClass CMap
   | [], m => .ok m
   | p :: ps, m =>
-    let k := normDir p
-    match m.lookup k with
-    | some c => if isDirType c.type then addParentsL mtime ps m else .error .collision
-    | none => addParentsL mtime ps (m.insert k (implicitDirEntry k mtime))
+    match m.lookup (normFile p) with
+    | some _ => .error .collision
+    | none =>
+      let k := normDir p
+      match m.lookup k with
+      | some c => if isDirType c.type then addParentsL mtime ps m else .error .collision
+      | none => addParentsL mtime ps (m.insert k (implicitDirEntry k mtime))
 
 /-- files.addParents -/
 def addParents (m : CMap) (path : Bytes) (mtime : Int) : Except ErrClass CMap :=
@@ -208,7 +217,7 @@ def addGlobbed (O : Oracle) (umask : Nat) (mtime : Int) (orig : Content) :
   | [], m => .ok m
   | (src, dst) :: rest, m =>
     let d := normFile dst
-    match m.lookup d with
+    match occupant m d with
     | some _ => .error .collision
     | none =>
       match addParents m d mtime with
@@ -222,27 +231,57 @@ def addGlobbed (O : Oracle) (umask : Nat) (mtime : Int) (orig : Content) :
           | none => nf
         addGlobbed O umask mtime orig rest (m.insert d nf)
 
-def treeEntry (O : Oracle) (umask : Nat) (mtime : Int) (tree : Content) (e : WalkEnt) : Content :=
+def setMode (c : Content) (mode : Nat) : Content :=
+  { c with info := c.info.map (fun i => { i with mode := mode }) }
+
+/-- the entry the WalkDir callback builds before the tree's own mode is applied -/
+def treeBase (umask : Nat) (tree : Content) (e : WalkEnt) : Content :=
   let destination := join2 tree.dst e.rel
-  let (owner, group) := match tree.info with
-    | some fi => if ownedByFs tree.dst then (([] : Bytes), ([] : Bytes)) else (fi.owner, fi.group)
+  let og : Bytes × Bytes := match tree.info with
+    | some fi => if ownedByFs tree.dst then ([], []) else (fi.owner, fi.group)
     | none => ([], [])
-  let c : Content := match e.kind with
-    | .dir =>
-      let d := normDir destination
-      { type := if ownedByFs d then T.implicitDir else T.dir, dst := d,
-        info := some { owner, group, mode := andNot e.mode umask, mtime := e.mtime } }
-    | .symlink =>
-      { type := T.symlink, src := e.link, dst := normFile destination,
-        info := some { owner, group } }
-    | .file =>
-      { type := T.file, src := e.path, dst := normFile destination,
-        info := some { owner, group, mode := andNot e.mode umask } }
-  let c := match tree.info with
-    | some fi => if fi.mode != 0 && c.type ≠ T.symlink
-                 then { c with info := c.info.map (fun i => { i with mode := fi.mode }) } else c
-    | none => c
-  withDefaults O umask mtime c
+  match e.kind with
+  | .dir =>
+    { type := if ownedByFs (normDir destination) then T.implicitDir else T.dir, dst := normDir destination,
+      info := some { owner := og.1, group := og.2, mode := andNot e.mode umask, mtime := e.mtime } }
+  | .symlink =>
+    { type := T.symlink, src := e.link, dst := normFile destination,
+      info := some { owner := og.1, group := og.2 } }
+  | .file =>
+    { type := T.file, src := e.path, dst := normFile destination,
+      info := some { owner := og.1, group := og.2, mode := andNot e.mode umask } }
+
+/-- `if tree.FileInfo != nil && tree.FileInfo.Mode != 0 && c.Type != TypeSymlink` -/
+def treeAdj (tree : Content) (c : Content) : Content :=
+  match tree.info with
+  | some fi => if fi.mode != 0 && c.type != T.symlink then setMode c fi.mode else c
+  | none => c
+
+def treeEntry (O : Oracle) (umask : Nat) (mtime : Int) (tree : Content) (e : WalkEnt) : Content :=
+  withDefaults O umask mtime (treeAdj tree (treeBase umask tree e))
+
+/-- the WalkDir callback of files.addTree, over the listed entries -/
+def addTreeEnts (O : Oracle) (umask : Nat) (mtime : Int) (tree : Content) :
+    List WalkEnt → CMap → Except ErrClass CMap
+  | [], m => .ok m
+  | e :: rest, m =>
+    let c := treeEntry O umask mtime tree e
+    let destination := join2 tree.dst e.rel
+    if isDirType c.type then
+      match m.lookup (normFile destination) with
+      | some _ => .error .collision
+      | none =>
+        match m.lookup c.dst with
+        | some p =>
+          if p.type ≠ T.implicitDir then
+            (if c.type = T.implicitDir then addTreeEnts O umask mtime tree rest m
+             else .error .collision)
+          else addTreeEnts O umask mtime tree rest (m.insert c.dst c)
+        | none => addTreeEnts O umask mtime tree rest (m.insert c.dst c)
+    else
+      match occupant m destination with
+      | some _ => .error .collision
+      | none => addTreeEnts O umask mtime tree rest (m.insert c.dst c)
 
 /-- files.addTree -/
 def addTree (O : Oracle) (umask : Nat) (mtime : Int) (i : Nat) (tree : Content) (m : CMap) :
@@ -260,8 +299,7 @@ def addTree (O : Oracle) (umask : Nat) (mtime : Int) (i : Nat) (tree : Content) 
     | .error e => .error e
     | .ok m =>
       match O.walk i with
-      | some (some ents) =>
-        .ok (ents.foldl (fun m e => let c := treeEntry O umask mtime tree e; m.insert c.dst c) m)
+      | some (some ents) => addTreeEnts O umask mtime tree ents m
       | _ => .error .walkErr
 
 inductive TypeClass | dir | implicitDir | fileLike | tree | globbed | invalid
@@ -277,6 +315,13 @@ def classify (t : Bytes) : TypeClass :=
   else if t = T.config || t = T.configNoReplace || t = T.configMissingOk || t = T.file || t = [] then .globbed
   else .invalid
 
+/-- the two occupancy tests of the `TypeDir` arm: an explicit directory, or any
+    non-directory, already sits at the destination -/
+def dirOccupied (m : CMap) (dst : Bytes) : Bool :=
+  (match m.lookup (normDir dst) with
+   | some p => p.type != T.implicitDir
+   | none => false) || (m.lookup (normFile dst)).isSome
+
 structure PlanCfg where
   umask : Nat
   packager : Bytes
@@ -290,10 +335,7 @@ def planStep (O : Oracle) (cfg : PlanCfg) (m : CMap) (ic : Nat × Content) : Exc
   else match classify c.type with
   | .dir =>
     let k := normDir c.dst
-    let occupied : Bool := match m.lookup k with
-      | some p => p.type != T.implicitDir
-      | none => false
-    if occupied then .error .collision
+    if dirOccupied m c.dst then .error .collision
     else match addParents m c.dst cfg.mtime with
       | .error e => .error e
       | .ok m =>
@@ -302,7 +344,7 @@ def planStep (O : Oracle) (cfg : PlanCfg) (m : CMap) (ic : Nat × Content) : Exc
   | .implicitDir => .ok m
   | .fileLike =>
     let k := normFile c.dst
-    match m.lookup k with
+    match occupant m c.dst with
     | some _ => .error .collision
     | none =>
       match addParents m c.dst cfg.mtime with
